@@ -16,9 +16,11 @@
 import os, json, time
 from . import lib
 
-VARIANTS = ["stale_den", "relative_index", "relative_subset", "no_prior_term", "refill_on_resume"]
-ACTIONS = ["SetUpFresh", "SubIter", "Crash", "Resume", "Again"]
-RUN_KINDS = ["single", "fresh", "resume", "again", "history", "reuse"]
+VARIANTS = ["stale_den", "relative_index", "relative_subset", "no_prior_term", "refill_on_resume", "silent_rerun"]
+ACTIONS = ["SetUpFresh", "SubIter", "Crash", "Resume", "Again", "RerunWithoutSetUp"]
+BEYOND = {"denfile", "refuse-rdp", "refuse-alpha0", "refuse-wrongden", "randomise", "writeUpdate", "writeUpdate-exact", "logcosh", "enforcePos-resume",
+          "upper-bound-0", "huge-gamma", "one-subiteration", "scale"}
+RUN_KINDS = ["single", "fresh", "resume", "again", "history", "reuse", "denfile", "refuse", "nosetup"]
 
 
 def _groups(recs):
@@ -44,7 +46,7 @@ def run(ctx):
         if r.coverage.get(act, (0, 0))[0] == 0:
             raise lib.ModelFailure("MC_OSSPS: action %s never taken" % act)
     import concurrent.futures as cf
-    with cf.ThreadPoolExecutor(5) as ex:
+    with cf.ThreadPoolExecutor(6) as ex:
         refuted = list(ex.map(lambda v: lib.tlc("MC_OSSPS", cfg="MC_OSSPS_" + v, workers=1, timeout=600, heap="2g", tag="MC_OSSPS_" + v), VARIANTS))
     for v, rv in zip(VARIANTS, refuted):
         if not rv.violation:
@@ -83,7 +85,7 @@ def run(ctx):
         chunks += lib.split_trace(t, os.path.join(ctx.work, "chunks"), maxlines=1500 if q else 4000, boundary="System")
     res = lib.validate_parallel("Trace_OSSPS", [c[0] for c in chunks], jobs=W, timeout=1500, heap="3g")
     ctx.notes.append("wall: model checks %.0fs, build %.0fs, recording %.0fs, trace validation %.0fs" % (t1 - t0, t2 - t1, t3 - t2, time.time() - t3))
-    seen = {"kinds": set(), "N": set(), "prior": set(), "parse": set(), "filter": set(), "clamp": set(), "additive": set(), "ubound": set(), "exact": set(), "holeresume": set()}
+    seen = {"kinds": set(), "N": set(), "prior": set(), "parse": set(), "filter": set(), "clamp": set(), "additive": set(), "ubound": set(), "exact": set(), "holeresume": set(), "beyond": set()}
     nruns = nsteps = nresume = 0
     nknown = [0]
     hole = False
@@ -97,6 +99,8 @@ def run(ctx):
         cfg, run_ = None, None
         for rec in recs:
             e = rec["e"]
+            if e == "ScaleOf":
+                seen["beyond"].add("scale")
             if e == "System":
                 hole = any(len(col) == 0 for col in rec["cols"])       # a voxel no bin sees (zero sensitivity)
             elif e == "Config":
@@ -113,6 +117,14 @@ def run(ctx):
                 seen["additive"].add(cfg["additive"])
                 seen["ubound"].add(cfg["uInf"])
                 seen["exact"].add(cfg["exact"])
+                # the sections beyond the property's quantifier
+                for tag, on in (("denfile", rec["kind"] == "denfile"), ("refuse-rdp", rec["kind"] == "refuse" and cfg.get("priorType") == "rdp"),
+                                ("refuse-alpha0", rec["kind"] == "refuse" and cfg["aN"] == 0), ("refuse-wrongden", rec["kind"] == "refuse" and cfg.get("denFile") == "wrong"),
+                                ("randomise", cfg.get("randomise")), ("writeUpdate", cfg.get("writeUpdate")), ("writeUpdate-exact", cfg.get("writeUpdate") and cfg["exact"]),
+                                ("logcosh", cfg.get("priorType") == "logcosh"), ("enforcePos-resume", cfg.get("enforcePos") and rec["start"] > 1),
+                                ("upper-bound-0", (not cfg["uInf"]) and cfg["uN"] == 0), ("huge-gamma", cfg["gN"] >= 256), ("one-subiteration", rec["kind"] == "fresh" and rec["last"] == 1)):
+                    if on:
+                        seen["beyond"].add(tag)
                 if hole and cfg["prior"] and rec["start"] > 1:
                     seen["holeresume"].add((cfg["exact"], rec["kind"]))
                 if nruns % 173 == 1:
@@ -124,7 +136,7 @@ def run(ctx):
                 lo = any(a == 0 and b != 0 for a, b in zip(rec["b1"], rec["b0"]))
                 hi = (not cfg["uInf"]) and any(a == cfg["uN"] * 2 ** (rec["kl"] - cfg["uK"]) for a in rec["lam1"])
                 seen["clamp"].add((lo, hi))
-                ctx.nontrivial((cfg["exact"], cfg["N"], _prior_kind(cfg), cfg["uInf"], cfg["viaParse"], cfg["additive"], run_["kind"], hole,
+                ctx.nontrivial((cfg["exact"], cfg["N"], _prior_kind(cfg), cfg["uInf"], cfg["viaParse"], cfg["additive"], run_["kind"], hole, cfg.get("priorType"), cfg.get("randomise"), cfg.get("writeUpdate"), cfg.get("denFile"), cfg.get("enforcePos"),
                                 rec["k"] // cfg["N"], rec["sub"], lo, hi, cfg["filter"] if cfg["filterInt"] > 0 or cfg["post"] else "none"))
         known_ids = {k["id"] for k in ctx.known}
         bad = []
@@ -161,7 +173,8 @@ def run(ctx):
                 or len(seen["additive"]) < 2 or len(seen["ubound"]) < 2 or len(seen["exact"]) < 2
                 or not any(c[0] for c in seen["clamp"]) or not any(c[1] for c in seen["clamp"])
                 # prior + voxel of zero sensitivity + run started at a sub-iteration > 1: free (resume) and exact (single)
-                or (False, "resume") not in seen["holeresume"] or (True, "single") not in seen["holeresume"]):
+                or (False, "resume") not in seen["holeresume"] or (True, "single") not in seen["holeresume"]
+                or not BEYOND <= seen["beyond"]):
             raise lib.ModelFailure("recorded traces do not cover the option space: %s missing=%s" % ({k: sorted(map(str, v)) for k, v in seen.items()}, missing))
     ctx.extra["runs"] = nruns
     ctx.extra["sub_iterations"] = nsteps
